@@ -58,7 +58,7 @@ func Harness_C01_flow_through_transport() {
 		onDemand = verifPick("on-demand", 0, 1) == 1
 	}
 	w := df.VerifBuildDirectFlow([]int{t}, []int{variant}, split, sinkForm, stringData)
-	verifAssertKnown("explicit-source-to-sink-flow-is-reported", "KF-C01-global-address-copy", false, c01ProgReported(w, c01ProgConfig(fieldSensitive, onDemand)))
+	verifAssert("explicit-source-to-sink-flow-is-reported", c01ProgReported(w, c01ProgConfig(fieldSensitive, onDemand)))
 }
 
 // C05 on whole programs: the reported (source, sink) pairs of the whole pipeline are the same with
